@@ -33,6 +33,7 @@ def Expr.noLayoutE : Expr → Prop
   | .selOr _ _ _ _ _ _ _ b a => noLayout b ∧ noLayout a
   | .lam _ _ _ _ _ b a => noLayout b ∧ noLayout a
   | .un _ _ _ _ b a => noLayout b ∧ noLayout a
+  | .bin _ _ _ _ _ b a => noLayout b ∧ noLayout a
 def allNoLayout : List Expr → Prop
   | [] => True
   | e :: rest => e.noLayoutE ∧ allNoLayout rest
@@ -67,6 +68,7 @@ theorem noLayoutE_before {e : Expr} (h : e.noLayoutE) : noLayout e.before := by
   | selOr e ats g ab d dg db b a => exact h.1
   | lam n c g k bd b a => exact h.1
   | un o e g bt b a => exact h.1
+  | bin o l r x y b a => exact h.1
 theorem noLayoutE_after {e : Expr} (h : e.noLayoutE) : noLayout e.after := by
   cases e with
   | leaf k t b a => exact h.2
@@ -81,6 +83,7 @@ theorem noLayoutE_after {e : Expr} (h : e.noLayoutE) : noLayout e.after := by
   | selOr e ats g ab d dg db b a => exact h.2
   | lam n c g k bd b a => exact h.2
   | un o e g bt b a => exact h.2
+  | bin o l r x y b a => exact h.2
 theorem noLayoutE_setBefore {e : Expr} (h : e.noLayoutE) {b : List Trivia} (hb : noLayout b) : (e.setBefore b).noLayoutE := by
   cases e with
   | leaf k t b' a => exact ⟨hb, h.2⟩
@@ -95,6 +98,7 @@ theorem noLayoutE_setBefore {e : Expr} (h : e.noLayoutE) {b : List Trivia} (hb :
   | selOr e ats g ab d dg db b' a => exact ⟨hb, h.2⟩
   | lam n c g k bd b' a => exact ⟨hb, h.2⟩
   | un o e g bt b' a => exact ⟨hb, h.2⟩
+  | bin o l r x y b' a => exact ⟨hb, h.2⟩
 theorem noLayoutE_addAfter {e : Expr} (h : e.noLayoutE) {a : List Trivia} (ha : noLayout a) : (e.addAfter a).noLayoutE := by
   have haa := noLayout_append.mpr ⟨noLayoutE_after h, ha⟩
   cases e with
@@ -110,6 +114,7 @@ theorem noLayoutE_addAfter {e : Expr} (h : e.noLayoutE) {a : List Trivia} (ha : 
   | selOr e ats g ab d dg db b a' => exact ⟨h.1, haa⟩
   | lam n c g k bd b a' => exact ⟨h.1, haa⟩
   | un o e g bt b a' => exact ⟨h.1, haa⟩
+  | bin o l r x y b a' => exact ⟨h.1, haa⟩
 
 theorem allNoLayout_append : ∀ {a b : List Expr}, allNoLayout a → allNoLayout b → allNoLayout (a ++ b)
   | [], _, _, hb => hb
@@ -295,6 +300,7 @@ theorem cst_noLayout : (c : Cst) → c.wf = true → containsNL c.flatten = fals
     | selOr ee ats g' ab d dg db b' a' => simp only [Expr.before] at heb; simp only [Expr.after] at hea; subst heb; subst hea; exact ⟨noLayout_nil, noLayout_nil⟩
     | lam nn cc g' kk bd b' a' => simp only [Expr.before] at heb; simp only [Expr.after] at hea; subst heb; subst hea; exact ⟨noLayout_nil, noLayout_nil⟩
     | un oo ee g' bt b' a' => simp only [Expr.before] at heb; simp only [Expr.after] at hea; subst heb; subst hea; exact ⟨noLayout_nil, noLayout_nil⟩
+    | bin oo ll rr xx yy b' a' => simp only [Expr.before] at heb; simp only [Expr.after] at hea; subst heb; subst hea; exact ⟨noLayout_nil, noLayout_nil⟩
     | list v m inn b' a' => simp only [Cst.parse] at hp; (repeat' split at hp) <;> first | cases hp | (injection hp with hp; (try split at hp) <;> cases hp)
     | set v m r inn b' a' => simp only [Cst.parse] at hp; (repeat' split at hp) <;> first | cases hp | (injection hp with hp; (try split at hp) <;> cases hp)
     | binding n v g' b' a' => simp only [Cst.parse] at hp; (repeat' split at hp) <;> first | cases hp | (injection hp with hp; (try split at hp) <;> cases hp)
@@ -322,6 +328,15 @@ theorem cst_noLayout : (c : Cst) → c.wf = true → containsNL c.flatten = fals
     cases hpe : e.parse with
     | error err => rw [hpe] at hp; cases hp
     | ok ee => rw [hpe] at hp; injection hp with hp; subst hp; exact ⟨noLayout_nil, noLayout_nil⟩
+  | .bin l c1 g1 op c2 g2 r, _, _, ex, hp => by
+    simp only [Cst.parse] at hp
+    cases hpl : l.parse with
+    | error err => rw [hpl] at hp; cases hp
+    | ok le =>
+      rw [hpl] at hp
+      cases hpr : r.parse with
+      | error err => rw [hpr] at hp; cases hp
+      | ok re => rw [hpr] at hp; injection hp with hp; subst hp; exact ⟨noLayout_nil, noLayout_nil⟩
 theorem items_noLayout : (its : Items) → ∀ (m : Mode) (cg : Text) (st st' : SeqSt), its.wf m cg = true →
     containsNL (its.flatten ++ cg) = false → its.parseSeq m st = .ok st' →
     allNoLayout st.items ∧ noLayout st.before → allNoLayout st'.items ∧ noLayout st'.before
@@ -415,6 +430,7 @@ theorem noLayoutE_effAfter {e : Expr} (h : e.noLayoutE) : noLayout (e.effAfter f
   | selOr e ats g ab d dg db b a => exact h.2
   | lam n c g k bd b a => exact h.2
   | un o e g bt b a => exact h.2
+  | bin o l r x y b a => exact h.2
 
 theorem ok_effAfter {e : Expr} (h : e.ok) : TrivOk (e.effAfter false) := by
   cases e with
@@ -432,6 +448,7 @@ theorem ok_effAfter {e : Expr} (h : e.ok) : TrivOk (e.effAfter false) := by
   | selOr e ats g ab d dg db b a => exact h.2.2.2.2.2.2.2
   | lam n c g k bd b a => exact h.2.2.2.2
   | un o e g bt b a => exact h.2.2.2.2
+  | bin o l r x y b a => exact h.2.2.2.2
 
 theorem allClosed_of_noLayout : ∀ {es : List Expr}, allOk es → allNoLayout es → allClosed es
   | [], _, _ => trivial
@@ -452,6 +469,7 @@ def Expr.flatClosed : Expr → Prop
   | .selOr .. => True
   | .lam .. => True
   | .un .. => True
+  | .bin .. => True
 def allFlatClosed : List Expr → Prop
   | [] => True
   | e :: rest => e.flatClosed ∧ allFlatClosed rest
@@ -619,6 +637,15 @@ theorem cst_flat : (c : Cst) → c.wf = true → ∀ (e : Expr), c.parse = .ok e
     cases hpe : e.parse with
     | error err => rw [hpe] at hp; cases hp
     | ok ee => rw [hpe] at hp; injection hp with hp; subst hp; trivial
+  | .bin l c1 g1 op c2 g2 r, _, ex, hp => by
+    simp only [Cst.parse] at hp
+    cases hpl : l.parse with
+    | error err => rw [hpl] at hp; cases hp
+    | ok le =>
+      rw [hpl] at hp
+      cases hpr : r.parse with
+      | error err => rw [hpr] at hp; cases hp
+      | ok re => rw [hpr] at hp; injection hp with hp; subst hp; trivial
 theorem items_flat : (its : Items) → ∀ (m : Mode) (cg : Text) (st st' : SeqSt), its.wf m cg = true →
     its.parseSeq m st = .ok st' → allFlatClosed st.items → allFlatClosed st'.items
   | .nil, m, cg, st, st', _, hp, h => by
@@ -706,6 +733,7 @@ theorem inlineClean_of_flat : (e : Expr) → e.beforeFlatB = true → e.flatClos
   | .selOr .., h, _ => by simp [Expr.beforeFlatB] at h
   | .lam .., h, _ => by simp [Expr.beforeFlatB] at h
   | .un .., h, _ => by simp [Expr.beforeFlatB] at h
+  | .bin .., h, _ => by simp [Expr.beforeFlatB] at h
 theorem allInlineClean_of_flat : (es : List Expr) → allBeforeFlatB es = true → allFlatClosed es → allInlineClean es
   | [], _, _ => trivial
   | e :: rest, h, hf => by
